@@ -977,13 +977,19 @@ impl<R: std::io::Read> FlacChannelReader<R> {
                 .collect())
         } else {
             let channels = usize::from(self.decoder.channel_count().get());
-            match self.decoder.read_frame()? {
-                Some(frame) => {
+            match self.decoder.read_frame().map(|frame| frame.is_some()) {
+                Ok(true) => {
                     self.consumed = 0;
-                    Ok(frame.channels().collect())
+                    Ok(self.decoder.buf.channels().collect())
                 }
                 // at end of stream the previous frame stays fully consumed
-                None => Ok(vec![&[]; channels]),
+                Ok(false) => Ok(vec![&[]; channels]),
+                // whatever a refused frame left in the buffer
+                // must not be handed out by the next call
+                Err(err) => {
+                    self.consumed = self.decoder.buf.pcm_frames();
+                    Err(err)
+                }
             }
         }
     }
